@@ -43,6 +43,16 @@ let run_ownership (parts : string list) : string =
     let viol = match v with Some O -> "0" | Some _ -> "1" | None -> "?" in
     Printf.sprintf "viol=%s code=%s pinned=%s all=%s" viol (code_str v) (code_str (pipe_verdict true (nat_of_int k)))
       (if all_safe 3 then "safe" else "unsafe")
+  | "doh" | "doh2" ->
+    (* model of record: the code as it is (make-allocated rawQuery handed over); pinned column: the pooled variant *)
+    let k = (match sched with
+      | "reply-first" -> 0 | "cancel-during-dial" | "deadline-during-dial" -> 1
+      | "cancel-during-dial-overlap" -> 2 | "cancel-during-read" -> 3
+      | s -> failwith ("unknown schedule " ^ s)) in
+    let v = doh_verdict false (nat_of_int k) in
+    let viol = match v with Some O -> "0" | Some _ -> "1" | None -> "?" in
+    Printf.sprintf "viol=%s code=%s pinned=%s all=%s" viol (code_str v) (code_str (doh_verdict true (nat_of_int k)))
+      (if all_safe 13 then "safe" else "unsafe")
   | s -> failwith ("unknown scenario " ^ s)
 
 let () = register "ownership" run_ownership
